@@ -95,6 +95,11 @@ def _fn_usum(xp, c, *xs):
     return out
 
 
+def _fn_add_opt(xp, c, x, off):
+    """optional offset: the input may be None"""
+    return x if off is None else x + off
+
+
 def _fn_uvec(xp, c, x):
     """user total that is NOT a scalar (e.g. a pointwise log-likelihood)."""
     return c.get("a", 0.0) + 2.0 * xp.asarray(x)
@@ -105,6 +110,7 @@ def _fn_sqrt(xp, c, x):
 
 
 FN = {
+    "add_opt": _fn_add_opt,
     "uvec": _fn_uvec,
     "sqrt": _fn_sqrt,
     "id": _fn_id,
@@ -232,6 +238,9 @@ def assignable(program: dict) -> list[dict]:
     variable or node name), lattice, via}]."""
     out = []
     for it in program["items"]:
+        if it["k"] == "opt":
+            out.append({"name": it["name"], "target": it["name"], "item": it["name"], "lattice": it["lattice"], "via": "node", "optional": True})
+            continue
         if it["k"] != "strong":
             continue
         if len(it["lattice"]) < 1:
@@ -250,15 +259,23 @@ def initial_valuation(program: dict) -> dict:
         if it["k"] == "strong":
             if it.get("transform"):
                 dargs = {k: _ref_value(r, env, {}) for k, r in it["dist"]["args"].items()}
-                z0 = transform_inverse(it["transform"], f64(it["init"]), dargs)
+                z0 = transform_inverse(_resolve_how(it["transform"], env), f64(it["init"]), dargs)
                 val[it["name"] + "_transformed"] = z0
                 env[it["name"]] = f64(it["init"])
             else:
                 val[akey(it)] = f64(it["lattice"][0])
                 env[it["name"]] = val[akey(it)]
+        elif it["k"] == "opt":
+            val[it["name"]] = None if it["lattice"][0] is None else f64(it["lattice"][0])
+            env[it["name"]] = val[it["name"]]
         elif it["k"] == "weak":
             env[it["name"]] = FN[it["fn"]](np, _consts(it), *[_ref_value(r, env, {}) for r in it["args"]])
     return val
+
+
+def _resolve_how(how: dict, env: dict) -> dict:
+    """bijector arguments may be model quantities ({"r": name})"""
+    return {k: (_ref_value(v, env, {}) if isinstance(v, dict) else v) for k, v in how.items()}
 
 
 def _consts(it):
@@ -304,7 +321,7 @@ def evaluate(program: dict, valuation: dict) -> dict:
             if tr:
                 z = np.asarray(valuation[name + "_transformed"], dtype=np.float64)
                 dargs = {kk: _ref_value(r, env, dist_sums) for kk, r in it["dist"]["args"].items()}
-                x, ldj = transform_forward(tr, z, dargs)
+                x, ldj = transform_forward(_resolve_how(tr, env), z, dargs)
                 env[name] = x
                 env[name + "_transformed"] = z
                 # the distribution moves to the new variable; `parameter` moves with it,
@@ -318,6 +335,9 @@ def evaluate(program: dict, valuation: dict) -> dict:
             env[name] = np.asarray(FN[it["fn"]](np, _consts(it), *[_ref_value(r, env, dist_sums) for r in it["args"]]), dtype=np.float64)
             if it.get("dist"):
                 add_dist(name, name if it.get("wrap", "var") == "var" else None, it["dist"], env[name], obs, par, it.get("per_obs", True))
+        elif k == "opt":
+            v = valuation[name]
+            env[name] = None if v is None else np.asarray(v, dtype=np.float64)
         elif k == "bare":
             add_dist(name, None, it["dist"], _ref_value(it["at"], env, dist_sums), False, False, it.get("per_obs", True))
         else:
